@@ -65,6 +65,8 @@ structure TabInv (combine : Nat → Word → Nat) (N : Nat) (caps : Nat → Nat)
   tabs : ∀ m, 2 ≤ m → m ≤ N → ∃ M, OrdInv (tbl N s m) M ∧
     (∀ k : Key, k.length = m → (M (hashOf combine k) = none ↔ k ∉ keysAt N keys tops m)) ∧
     (tbl N s m).t.entries = cnt (keysAt N keys tops m) m ∧ (tbl N s m).t.N = caps m
+  /-- no table is full: `entries_ < buckets_` (what `++entries_ >= buckets_` maintains) -/
+  below : ∀ m, 2 ≤ m → m ≤ N → (tbl N s m).t.entries < (tbl N s m).t.N
 
 /-- `FindLower` in lockstep: either both insert the same blanks, or `ProbingBuild` raises `ProbingSizeException` at an order whose
 key count in the loader model reaches the capacity -/
@@ -122,7 +124,13 @@ theorem findLower_sim (combine : Nat → Word → Nat) (inj : ∀ k1 k2 : Key, h
       · obtain ⟨o', hfoi, oi', hpay, hN', he'⟩ := ord_findOrInsert_new oi _ blankW hM hc
         -- the state after the insertion represents `g.take (f+2) :: keys`
         have inv' : TabInv combine N caps (g.take (f + 2) :: keys) tops (setMid s f o') := by
-          refine ⟨by simp [setMid, inv.midlen], ?_⟩
+          refine ⟨by simp [setMid, inv.midlen], ?_, ?_⟩
+          rotate_left
+          · intro m h2 hN2
+            rw [tbl_setMid _ _ _ _ _ hfl]
+            by_cases hmf : m ≠ N ∧ m - 2 = f
+            · rw [if_pos hmf, he', hN']; exact hc
+            · rw [if_neg hmf]; exact inv.below m h2 hN2
           intro m h2 hN2
           rw [tbl_setMid _ _ _ _ _ hfl]
           by_cases hmf : m ≠ N ∧ m - 2 = f
@@ -244,7 +252,13 @@ theorem insert_sim (combine : Nat → Word → Nat) (inj : ∀ k1 k2 : Key, hash
   · intro hc
     obtain ⟨o', hok, oi', hpay, hN', he'⟩ := ord_insert oi (hashOf combine g) (lineW e) hM (by rw [hent, hcap]; exact hc)
     obtain ⟨s1, h1, huni, hml, htb, hoth⟩ := insPhase_ok combine N s g e o' h2 hN inv.midlen hok
-    refine ⟨s1, h1, huni, hml, ?_⟩
+    refine ⟨s1, h1, huni, hml, ?_, ?_⟩
+    rotate_left
+    · intro m hm2 hmN
+      by_cases hmg : m = g.length
+      · subst hmg
+        rw [htb, he', hN', hent, hcap]; exact hc
+      · rw [hoth m hmg hm2]; exact inv.below m hm2 hmN
     intro m hm2 hmN
     by_cases hmg : m = g.length
     · subst hmg
